@@ -326,6 +326,21 @@ CLAIMED["C19"] = (
     "DESIGN.md section 6 C19",
 )
 
+CLAIMED["C31"] = (
+    "point_in_polygon is executed on a family of integer polygons (convex, non-convex, with a hanging node, both "
+    "orientations and start vertices) with SYMBOLIC REAL test points (one or two per call): on every path z3 decides "
+    "for all points of [-1,5]^2 that the result equals the crossing-number oracle off the boundary and the `default` "
+    "value on it. is_ccw_polyline (symbolic points, two tolerances) is compared with the orientation determinant, "
+    "is_ccw_polygon with the orientation of symbolic convex polygons, point_inside_half_space_intersection with the "
+    "conjunction of the half-space inequalities (symbolic offsets and points), and sort_point_pairs is shown to "
+    "return a valid closed chain using every input segment once for symbolic distinct labels.",
+    "Polygons are concrete (case split), points symbolic; point_in_polyhedron (arctan2 solid angles), the linprog / "
+    "Qhull based half-space helpers and the helpers that normalise by square roots / rotate by arccos angles "
+    "(points_are_planar, points_are_collinear, sort_points_on_line, sort_point_plane) are outside.",
+    "symbolic execution of the real Python source over real / integer terms + SMT (linear and nonlinear real arithmetic)",
+    "DESIGN.md section 6 C31",
+)
+
 CLAIMED["C27"] = (
     "SubdomainProjections (cell and face restriction / prolongation), MortarProjections (all eight maps and the "
     "side-sign matrix) and BoundaryProjection are built by the real code for ordered lists (all orders and sub-"
